@@ -49,6 +49,7 @@ def run(chk: Check, proj: Project) -> None:
     s5_accessors(chk, proj, ["TEMPLATE_CACHE_SIZE"], rule="S5")
     s7_values_are_opaque(chk, proj)
     s10_public_mutators_locked(chk, proj, m, cls, w_)
+    s11_one_cache(chk, proj)
     from . import C01 as _C01
 
     chk.borrow("S9", "a cached Template renders like a fresh compilation on EVERY render: which fills a `{% component %}` body provides is discovered per render (a body with `{% if c %}{% fill %}..{% endif %}` provides a fill in one render and none in the next) - a 'no fills here' memo on the cached node list makes the second render fail or print the default (shared with C01-S11)",
@@ -533,6 +534,20 @@ def s10_public_mutators_locked(chk: Check, proj: Project, m, cls, w) -> None:
                f"every state change of {st.name}() stands inside `with self.{sorted(locks)[0]}`" if not unlocked and sites else
                f"`{short(unlocked[0]) if unlocked else st.name}` in the public method {st.name}() changes the cache outside `with self.{sorted(locks)[0]}`: run while another thread's set() is between choosing the victim and deleting it, the dict and the recency list stop agreeing and that set() raises KeyError")
     chk.floor("S10", n, 2)
+
+
+def s11_one_cache(chk: Check, proj: Project) -> None:
+    chk.rule("S11", "there is ONE template cache per process: get_template_cache returns the module-level LRU on every path and constructs an LRUCache in exactly one place - per-thread (or per-anything) caches multiply the bound by the number of threads, give a repeated key a different Template object in another thread, and make clear() local to the caller")
+    cm, cf = proj.func("cache", "get_template_cache")
+    chk.analysed(fkey(cm, cf))
+    gl = {n for x in ast.walk(cf) if isinstance(x, ast.Global) for n in x.names}
+    rets = [r for r in ast.walk(cf) if isinstance(r, ast.Return) and r.value is not None]
+    bad = [r for r in rets if not (isinstance(r.value, ast.Name) and r.value.id in gl)]
+    ctor = calls(cf, "LRUCache")
+    ok = bool(rets) and not bad and len(ctor) == 1
+    chk.ob("S11", "cache:get_template_cache:one-process-wide-cache", cm.loc(bad[0]) if bad else (cm.loc(ctor[1]) if len(ctor) > 1 else cm.loc(cf)), ok,
+           "every path returns the module-level cache, constructed in one place" if ok else
+           f"`{short(bad[0]) if bad else short(ctor[-1])}`: get_template_cache hands out a cache other than the one module-level LRU - the size bound no longer holds for the process (each thread keeps up to template_cache_size templates of its own), the same key yields different Template objects in different threads, and clear() does not reach them")
 
 
 MANIFEST = {
